@@ -125,6 +125,7 @@ type Exec struct {
 	curCall   *ssa.CallCommon
 	specMode  int
 	kfs       []*KnownFinding
+	protected []protEntry
 }
 
 func (x *Exec) note(format string, args ...any) {
@@ -311,12 +312,45 @@ func (x *Exec) newRef(st *State) string {
 
 func (x *Exec) havocAll(st *State, why string) {
 	x.note("havoc of the whole heap: %s", why)
+	// non-escaping locals (go/ssa: Alloc.Heap == false) cannot be written by code
+	// that never sees their address: they keep their contents
+	type kept struct {
+		p   protEntry
+		val string
+	}
+	var keep []kept
+	for _, p := range x.protected {
+		h := x.heapGet(st, p.key, p.t)
+		keep = append(keep, kept{p, x.define("keep", x.s.sortOf(p.t), "(select "+h+" "+p.ref+")")})
+	}
 	st.heap = map[string]string{}
 	x.s.nfresh++
 	st.base = x.s.nfresh
 	na := x.s.declare("alloc", "Int")
 	x.assume("true", "(>= "+na+" "+st.alloc+")")
 	st.alloc = na
+	for _, k := range keep {
+		h := x.heapGet(st, k.p.key, k.p.t)
+		x.heapSet(st, k.p.key, k.p.t, "(store "+h+" "+k.p.ref+" "+k.val+")")
+	}
+}
+
+type protEntry struct {
+	key string
+	t   types.Type
+	ref string
+}
+
+// restoreProtected re-establishes the contents of non-escaping locals after a
+// heap component was havocked because of a call's or loop's unknown effects.
+func (x *Exec) restoreProtected(st *State, key string, old string) {
+	for _, p := range x.protected {
+		if p.key != key {
+			continue
+		}
+		h := st.heap[key]
+		x.heapSet(st, key, p.t, "(store "+h+" "+p.ref+" (select "+old+" "+p.ref+"))")
+	}
 }
 
 // merging -----------------------------------------------------------------
@@ -487,7 +521,11 @@ func (x *Exec) execFunc(fr *Frame, st *State) ([]V, *State) {
 		}
 	}
 	x.stack = append(x.stack, fn)
-	defer func() { x.stack = x.stack[:len(x.stack)-1] }()
+	nprot := len(x.protected)
+	defer func() {
+		x.stack = x.stack[:len(x.stack)-1]
+		x.protected = x.protected[:nprot]
+	}()
 
 	order := rpo(fn)
 	for _, b := range order {
